@@ -45,7 +45,9 @@ CHECKS = {
         "runs its batch of cases in reverse order (process history). Frame-size sub-check: scenarios whose links carry a few "
         "frames per step under variants that differ in exactly one source of opaque values (clock origin/step, identifier "
         "digits, whole-second stamps); the clock-only variant must agree down to the normalised simulation state. "
-        "Exploration over sampled seeds and hash seeds.",
+        "Multibot cases (three or four self-starting repeating dos-bots with different trial odds, ten seeded episodes) make "
+        "the order in which nodes are visited decide who gets which draw; the configured seed coincides with the reset seed "
+        "in a third of the cases. Exploration over sampled seeds and hash seeds.",
         "Only what the property lists (observations, rewards, histories) is compared, after replacing uuids/MACs/timestamps "
         "by first-appearance labels; hash seeds are 3 (quick) / 5 (thorough) fixed values.",
     ),
